@@ -37,8 +37,26 @@ def seq_of(E, v, st):
             if not isinstance(inner.ty.elem, TList):
                 raise OutsideSubset("chain(*xs) over non-lists")
             ety = inner.ty.elem.elem
-            f = E.uf("flatten_" + _m(inner.ty.key), [E.U.sort(inner.ty)], Q.list_sort(E.U.sort(ety)))
-            E.assumptions.add("itertools.chain(*xs): uninterpreted flattening of a list of lists (no membership axiom)")
+            fname = "flatten_" + _m(inner.ty.key)
+            first = not any(k[0] == fname for k in E.ufs)
+            f = E.uf(fname, [E.U.sort(inner.ty)], Q.list_sort(E.U.sort(ety)))
+            if first:
+                srt = E.U.sort(inner.ty)
+                xs = z3.Const("xs!fl", srt)
+                i, j, m = z3.Ints("i!fl j!fl m!fl")
+                idx = E.uf(fname + "_idx", [srt, z3.IntSort(), z3.IntSort()], z3.IntSort())
+                oi = E.uf(fname + "_oi", [srt, z3.IntSort()], z3.IntSort())
+                oj = E.uf(fname + "_oj", [srt, z3.IntSort()], z3.IntSort())
+                fl = f(xs)
+                inner_at = Q.At(Q.At(xs, i), j)
+                E.axioms.append(z3.ForAll([xs, i, j], z3.Implies(z3.And(0 <= i, i < Q.Length(xs), 0 <= j, j < Q.Length(Q.At(xs, i))),
+                                                                 z3.And(0 <= idx(xs, i, j), idx(xs, i, j) < Q.Length(fl), Q.At(fl, idx(xs, i, j)) == inner_at)),
+                                           patterns=[z3.MultiPattern(fl, inner_at)]))
+                E.axioms.append(z3.ForAll([xs, m], z3.Implies(z3.And(0 <= m, m < Q.Length(fl)),
+                                                              z3.And(0 <= oi(xs, m), oi(xs, m) < Q.Length(xs), 0 <= oj(xs, m), oj(xs, m) < Q.Length(Q.At(xs, oi(xs, m))),
+                                                                     Q.At(fl, m) == Q.At(Q.At(xs, oi(xs, m)), oj(xs, m)))),
+                                           patterns=[Q.At(fl, m)]))
+            E.assumptions.add("itertools.chain(*xs): flattening characterised by membership (x in chain(*xs) iff x in some xs[i]); order unconstrained")
             return SVal(f(inner.t), TList(ety))
         raise OutsideSubset(f"sequence view of {v.kind}")
     if isinstance(v, STuple):
